@@ -13,7 +13,7 @@ for c in $(git -C /repo log --format=%h --grep '^fix:' --reverse); do
   if [ -z "$prop" ]; then echo "$c ?    no-fixed-line  $subj" >> "$OUT"; continue; fi
   git -C /repo diff $c $c^ > /tmp/regress-$c.diff
   if ! git -C /repo apply --check /tmp/regress-$c.diff 2>/dev/null; then echo "$c $prop revert-does-not-apply  $subj" >> "$OUT"; rm -f /tmp/regress-$c.diff; continue; fi
-  lane=rel; case "$subj" in *saturat*|*overflowing\ u16*) lane=chk;; esac
+  lane=rel; case "$subj" in *saturat*|*overflowing\ u16*|*debug\ assertion*) lane=chk;; esac
   res=$(LANE=$lane tools/try_patch.sh /tmp/regress-$c.diff $prop quick 1 2>&1)
   if echo "$res" | grep -q "^VIOLATION"; then
      sig=$(echo "$res" | grep "violation signature" | head -1 | sed 's/.*violation signature \([^ ]*\) x\([0-9]*\).*/\1 x\2/')
